@@ -76,7 +76,7 @@ def plan_term(t, counts, idx):
 
 def rows_of(x, q=""):
     """bag of result rows; for the statements whose answer legitimately depends on the order in which the scan hands out the row-sets (not
-    fixed on the disk engine) only the order-independent part is kept: the window executor computes a running aggregate over the arrival
+    fixed on the disk engine) only the order-independent part is kept (the key column of ORDER BY x LIMIT n): the window executor computes a running aggregate over the arrival
     order whatever PARTITION BY / ORDER BY say (outside the 20 properties), LIMIT without ORDER BY keeps whichever rows arrive first"""
     if "ok" not in x:
         return None
@@ -85,6 +85,8 @@ def rows_of(x, q=""):
         rows = [r[:1] for r in rows]
     if " limit " in q and "order by" not in q:
         rows = [["row"] for r in rows]
+    elif " limit " in q:
+        rows = [r[:1] for r in rows]       # ORDER BY x LIMIT n over tied keys may keep any of the tied rows: the key sequence is what is fixed
     return sorted(json.dumps(r) for r in rows)
 
 
